@@ -1,10 +1,9 @@
 import AlatorVerif.Model.Strategy
+import AlatorVerif.Driver.Broker
 namespace Drv.Strat
-open PU Proto PBk PSt
+open PU Proto PBk PSt Drv
 
 abbrev S := Strat String Float
-def f64 (s : String) : Float := Float.ofBits (s.toNat!.toUInt64)
-def bits (x : Float) : String := if x == 0.0 then "0" else toString x.toBits.toNat
 
 structure W where
   v : Variant
@@ -13,82 +12,76 @@ structure W where
   dates : List Int := []
   qs : List (Int × String × Quote Float) := []
   costs : List (Cost Float) := []
+  weights : List (String × Float) := []
   st : Option S := none
-  ambiguous : Bool := false      -- cash went negative: the liquidation walk order would matter
+  dead : Bool := false
 
-def parseCosts : Nat → List String → List (Cost Float)
-  | 0, _ => []
-  | n + 1, k :: x :: rest =>
-    let c : Cost Float := if k == "P" then .perShare (f64 x) else if k == "C" then .pct (f64 x) else .flat (f64 x)
-    c :: parseCosts n rest
-  | _, _ => []
-def parseQ (date : Int) : Nat → List String → List (Int × String × Quote Float)
-  | 0, _ => []
-  | n + 1, sym :: b :: a :: rest => (date, sym, ⟨f64 b, f64 a, date⟩) :: parseQ date n rest
-  | _, _ => []
-def parseW : Nat → List String → List (String × Float)
-  | 0, _ => []
-  | n + 1, sym :: w :: rest => (sym, f64 w) :: parseW n rest
-  | _, _ => []
+def tail (s : S) (ks : List String) : String :=
+  let st := if s.b.failed then "Failed" else "Ready"
+  s!"G {fb s.b.cash} ; TV {fb (totalValue s.b ks)} ; S {st} ; K {s.srv.pos} {s.srv.date} {s.srv.dates.length} ; HL {s.hist.length} ; XB {s.srv.exch.buffer.length} ; H {Drv.Broker.showMap s.b.hold} ; W {ks.length} {joinSp ks}"
 
-def sellFirstPerm (n : Nat) (idx : List Nat) (buf : List (Order String Float)) : Bool :=
-  let sides := idx.map (fun i => match buf[i]? with | some o => isSell o | none => false)
-  idx.length == n && (List.range n).all (fun i => idx.count i == 1) && (sides.dropWhile id).all (fun b => !b)
-
-def stepLine (w : W) (line : String) : W × String :=
-  match (line.trimAscii.toString.splitOn " ").filter (fun t => t != "") with
-  | "COSTS" :: n :: rest => ({ w with costs := parseCosts n.toNat! rest }, "ok")
-  | "DATA" :: _ :: rest => ({ w with syms := rest, dates := [], qs := [] }, "ok")
-  | "Q" :: d :: nq :: rest =>
+def step (w : W) (ts : List String) : W × String :=
+  let (op, secs) := Drv.Broker.splitAnn ts
+  if (Drv.Broker.secOf secs "DEAD").isSome then (w, "dead") else
+  match op with
+  | "CLIENT" :: _ => (w, "ok")
+  | "COSTS" :: n :: rest => ({ w with costs := Drv.Broker.parseCosts n.toNat! rest }, "ok")
+  | "DATA" :: _ :: _ :: rest => ({ w with syms := rest, dates := [], qs := [] }, "ok")
+  | "Q" :: _ :: d :: nq :: rest =>
     if nq.toNat! == 0 then (w, "ok")
-    else ({ w with dates := w.dates ++ [d.toInt!], qs := w.qs ++ parseQ d.toInt! nq.toNat! rest }, "ok")
-  | "BUILD" :: n :: ws =>
+    else ({ w with dates := if w.dates.contains d.toInt! then w.dates else w.dates ++ [d.toInt!],
+                   qs := w.qs ++ Drv.Broker.parseQ d.toInt! nq.toNat! rest }, "ok")
+  | "WEIGHTS" :: n :: ws => ({ w with weights := Drv.Broker.parseW n.toNat! ws }, "ok")
+  | ["BUILD"] =>
     let quotes : Int → String → Option (Quote Float) := fun d s =>
-      (w.qs.find? (fun e => e.1 == d && e.2.1 == s)).map (·.2.2)
+      (w.qs.reverse.find? (fun e => e.1 == d && e.2.1 == s)).map (·.2.2)
     let d0 := w.dates.headD 0
     let srv : Srv String Float := ⟨w.dates, quotes, 0, d0, ⟨⟨[], 0⟩, [], []⟩⟩
     let b : Brk String Float := ⟨0, fun _ => none, fun _ => none, quotes d0, [], w.costs, false⟩
-    ({ w with st := some { b := b, srv := srv, weights := parseW n.toNat! ws, ncf := 0, hist := [] } }, "ok")
-  | op :: rest =>
+    ({ w with st := some { b := b, srv := srv, weights := w.weights, ncf := 0, hist := [] } }, "ok")
+  | o :: rest =>
     match w.st with
     | none => (w, "bad-op")
     | some s =>
-      match op, rest with
+      let ks := (Drv.Broker.secOf secs "W").map (fun l => l.drop 1) |>.getD []
+      match o, rest with
       | "INIT", [x] =>
-        let s' := init w.v w.ncfFixed s (f64 x) w.syms
-        ({ w with st := some s' }, if s'.panicked then "PANIC" else "ok")
-      | "UPDATE", "A" :: n :: idx =>
-        let idx := (idx.take n.toNat!).map String.toNat!
-        if !sellFirstPerm n.toNat! idx s.srv.exch.buffer || n.toNat! != s.srv.exch.buffer.length then (w, "REJECT-ADMISSION")
-        else
-          let adm := idx.filterMap (fun i => s.srv.exch.buffer[i]?)
-          let s' := update w.v s adm w.syms w.syms
-          let amb := w.ambiguous || decide (s'.b.cash < 0) || s'.b.failed
-          match s'.hist.getLast? with
-          | some sn => ({ w with st := some s', ambiguous := amb },
-              if s'.panicked then "PANIC" else s!"{sn.date} {bits sn.value} {bits sn.ncf} {hasNext s'}")
-          | none => (w, "bad-op")
+        let s' := init w.v w.ncfFixed s (f64 x) ks
+        if s'.panicked then ({ w with st := some s' }, "PANIC")
+        else ({ w with st := some s' }, s!"EV ok ; {tail s' ks}")
       | "WD", [x] =>
+        let r := PBk.withdraw s.b (f64 x)
         let s' := PSt.withdraw s (f64 x)
-        ({ w with st := some s' }, s!"{bits s'.ncf}")
-      | "END", [] => (w, if w.ambiguous then "AMBIGUOUS" else "clean")
+        let e := match r.1 with | .wOk _ => "WOK" | _ => "WFAIL"
+        ({ w with st := some s' }, s!"EV {e} ; {tail s' ks}")
+      | "UPDATE", [] =>
+        match Drv.Broker.secOf secs "A" with
+        | some (_ :: ["BAD"]) => (w, "REJECT-ADMISSION not-a-permutation-of-the-batch")
+        | some (n :: idx) =>
+          let idx := idx.map String.toNat!
+          let sellAt := fun i => match s.srv.exch.buffer[i]? with | some o => isSell o | none => false
+          if n.toNat! != s.srv.exch.buffer.length || !sellFirstPerm n.toNat! idx sellAt then
+            (w, s!"REJECT-ADMISSION not-sell-first {s.srv.exch.buffer.length}")
+          else
+            let adm := idx.filterMap (fun i => s.srv.exch.buffer[i]?)
+            let s' := update w.v s adm ks ks
+            match s'.hist.getLast? with
+            | some sn =>
+              if s'.panicked then ({ w with st := some s' }, "PANIC")
+              else ({ w with st := some s' }, s!"EV ok ; SN {sn.date} {fb sn.value} {fb sn.ncf} ; {tail s' ks}")
+            | none => (w, "bad-op")
+        | _ => (w, "bad-op")
+      | "RUNREST", [] =>
+        if (Drv.Broker.secOf secs "RUNPANIC").isSome then (w, "PANIC") else
+        -- the loop `while has_next { update }` performs exactly N - pos updates (C16.loop_length)
+        let n := s.srv.dates.length - s.srv.pos
+        (w, s!"EV ok ; RR {n} ; PARTIAL")
       | _, _ => (w, "bad-op")
   | _ => (w, "bad-op")
 
-partial def loop (h : IO.FS.Stream) (v : Variant) (nf : Bool) (w : W) : IO Unit := do
-  let line ← h.getLine
-  if line.isEmpty then return ()
-  if line.trimAscii.toString == "RESET" then
-    IO.println "reset"
-    loop h v nf { v := v, ncfFixed := nf }
-  else
-    let (w', out) := stepLine w line
-    IO.println out
-    loop h v nf w'
-
 def main (args : List String) : IO Unit := do
-  let rep := args.contains "repaired"
-  let v := if rep then Variant.repaired else Variant.pinned
-  loop (← IO.getStdin) v rep { v := v, ncfFixed := rep }
+  let v := Drv.Broker.variantOf args
+  let nf := !args.contains "pinned-F8"
+  loopWith (← IO.getStdin) ({ v := v, ncfFixed := nf } : W) step { v := v, ncfFixed := nf }
 
 end Drv.Strat
